@@ -226,7 +226,15 @@ class Case:
         self.bar = 0
         self.prices = {nm: w.prices[nm].iloc[0] for nm in self.names}
         wallet = {t: Decimal(10) ** rng.choice([12, 12, 9]) for t in w.tokens}
-        self.fz = Dr.Frozen([self.m], w.prices.iloc[0], None, wallet, w.index[0])
+        self.sib = None
+        if rng.random() < 0.3:
+            # Aave on a second chain under the same account: the same token names, other indices and risk rows; it is read
+            # and written between the monitored market's operations (see vmon/decoy.py)
+            from ..decoy import AaveSibling
+
+            self.sib = AaveSibling(rng, w)
+            mon.cls("sibling/aave")
+        self.fz = Dr.Frozen([self.m] + ([self.sib.m] if self.sib else []), w.prices.iloc[0], None, wallet, w.index[0])
         self.fz.broker.quote_token = USD
         self.exp = None          # recomputation for the current state
         self.exp_pre = None      # recomputation before the last write
@@ -293,6 +301,9 @@ class Case:
     def warmers(self):
         """reads a strategy would do that go through the caches without being compared here."""
         rng, m = self.rng, self.m
+        if self.sib is not None and rng.random() < 0.5:
+            self.sib.poke(rng)
+            self.mon.hit("sibling-poke")
         r = rng.random()
         try:
             if r < 0.10 and m.supply_keys:
